@@ -189,8 +189,9 @@ def run(ctx):
         simple = [canon_atom(a, pol) for a, pol in atoms if isinstance(a, (ast.Compare, ast.Call, ast.Name, ast.Attribute)) or
                   (isinstance(a, ast.UnaryOp) and isinstance(a.op, ast.Not))]
         consts = [a for a, pol in atoms if isinstance(a, ast.Constant)]
-        if isinstance(r_.value, ast.Subscript) and norm(r_.value.value) == "matches":
-            ok = ("==", "1", "len(matches)", True) in simple or ("==", "len(matches)", "1", True) in simple
+        if isinstance(r_.value, ast.Subscript) and isinstance(r_.value.value, ast.Name) and isinstance(r_.value.slice, ast.Constant):
+            ml = r_.value.value.id                # a member of a candidate list, whatever the list is called
+            ok = ("==", "1", f"len({ml})", True) in simple or ("==", f"len({ml})", "1", True) in simple
             why = "a member of the candidate list is returned only when the list has exactly one element"
         else:
             ok = any(t[3] is True and t[0] in ("in", "==", "is") and spec in (t[1].split(".")[0], t[2].split(".")[0], t[1], t[2]) for t in simple)
